@@ -1,5 +1,5 @@
 """C10 - coverpoint bins count exactly the samples whose value they contain."""
-from .. import engine, fam_cov
+from .. import engine, fam_cov, fam_mc
 
 LEVEL = "model_checking"
 MODULE = "Trace_VscCov"
@@ -9,6 +9,10 @@ RUNNER = ("runner_cov", "run_scenario")
 def run(tier, seed, limit=0):
     chk = engine.Check("C10", tier, seed)
     scs = fam_cov.family_bins(tier, seed)
+    mc_scs, sim_states = fam_mc.family_mc_cov(tier, seed)      # TLC-generated behaviours of MC_VscCov, replayed
+    scs = scs + mc_scs
+    chk.extra_cov["tlc_generated_histories_replayed"] = len(mc_scs)
+    chk.extra_cov["tlc_simulation_states"] = sim_states
     if limit:
         scs = scs[:limit]
     chk.run_scenarios(scs, MODULE, fn=RUNNER, batch_events=2500)
